@@ -21,6 +21,7 @@ import (
 	"fmt"
 	"os"
 	"sort"
+	"strconv"
 	"strings"
 	"sync"
 	"sync/atomic"
@@ -359,6 +360,7 @@ func (c *collector) judge(batch int) error {
 	}
 	// every mismatch the Go comparison saw must be explained by a rejection
 	// of the bytes written or of the value read in the same execution
+	nReal := 0
 	explained := map[int64]bool{}
 	for i, r := range recs {
 		if isBad[i] {
@@ -370,8 +372,13 @@ func (c *collector) judge(batch int) error {
 			continue
 		}
 		if r.realOnly {
-			// the digits of a float64 are outside the model: decided by identity on the code
-			key := "fmt/real-identity"
+			// the digits of a float64 are outside the model: decided by identity on the code;
+			// one class per number of significant digits of the real that changed
+			if r.Side != "fmt" {
+				continue // the scan record of the same execution
+			}
+			nReal++
+			key := "fmt/real-identity/" + changedRealClass(r.Vals, r.got)
 			if !reported[key] {
 				reported[key] = true
 				ctx.Violation(key, fmt.Sprintf("a float64 does not read back == after pdf.Format (options %v): wrote %q", r.Opts, clip(unints(r.Bytes), 200)), replayCase(r))
@@ -380,6 +387,9 @@ func (c *collector) judge(batch int) error {
 		}
 		return core.Infra("harness and specification disagree: the Go comparison rejects %s (options %v, bytes %q, err %q) but Trace_PdfSyntax accepts it",
 			r.Origin, r.Opts, clip(unints(r.Bytes), 200), r.errText)
+	}
+	if nReal > 0 {
+		ctx.Logf("%d executions in which a float64 did not read back ==", nReal)
 	}
 	for _, d := range c.direct {
 		if !reported[d.key] {
@@ -698,4 +708,33 @@ func replay(ctx *core.Ctx, raw json.RawMessage) error {
 		return nil
 	}
 	return col.judge(100)
+}
+
+// changedRealClass names the first real of vals that was read back as
+// another number: the count of significant digits of its shortest decimal
+// form ("other" when the difference is elsewhere).
+func changedRealClass(vals, got []Val) string {
+	var find func(a, b []Val) string
+	find = func(a, b []Val) string {
+		for i := range a {
+			if i >= len(b) {
+				break
+			}
+			if a[i].T == "real" && b[i].T == "real" && a[i].F != b[i].F {
+				d := strings.Trim(strings.ReplaceAll(strings.TrimPrefix(strconv.FormatFloat(a[i].F, 'e', -1, 64), "-"), ".", ""), "0")
+				if k := strings.IndexByte(d, 'e'); k >= 0 {
+					d = strings.TrimRight(d[:k], "0")
+				}
+				return fmt.Sprintf("%d-significant-digits", len(d))
+			}
+			if c := find(a[i].E, b[i].E); c != "" {
+				return c
+			}
+		}
+		return ""
+	}
+	if c := find(NormSeq(vals), got); c != "" {
+		return c
+	}
+	return "other"
 }
